@@ -31,6 +31,11 @@ Definition obs_eqb (a b : obs) : bool :=
   | OV t1 u1, OV t2 u2 => Nat.eqb t1 t2 && Nat.eqb u1 u2
   | OFok, OFok | OFalready, OFalready => true
   | OG n1, OG n2 => Nat.eqb n1 n2
+  (* refusals of Subscribe are told apart (relay closed / consumer closed) by message text only, and the
+     count in Close's error is read from its text: an observation the harness could not read (OSother)
+     agrees with every refusal, resp. with every non-zero count *)
+  | OSrc, OScc | OScc, OSrc | OSrc, OSother | OScc, OSother | OSother, OSrc | OSother, OScc => true
+  | OG (Datatypes.S _), OSother | OSother, OG (Datatypes.S _) => true
   | _, _ => false    (* ODis / OSother are never matched: a disabled action was not observable *)
   end.
 
